@@ -73,17 +73,23 @@ Theorem chunk_segmentation_independent : forall st a b,
 Proof. exact chunk_feed_app. Qed.
 Print Assumptions chunk_segmentation_independent.
 
-(* HTTP head parser.  Full statement (not proved):
-     forall isreq st a b, http_feed isreq st (a ++ b) =
-       let '(s1, e1) := http_feed isreq st a in let '(s2, e2) := http_feed isreq s1 b in (s2, e1 ++ e2).
-   Proved part: the line scanner is restartable -- a line found (or a protocol
-   error raised) in a is found identically in a ++ b, and an incomplete line is
-   continued from the scanner state reached; the parsers re-scan the incomplete
-   line from its first byte, which http_feed models by keeping the unconsumed
-   bytes.  The lifting through req_parse_loop / res_parse_loop is checked by
-   the correspondence run only (every cut position of request and response
-   heads). *)
-Theorem http_line_segmentation_independent_partial : forall a b,
+(* HTTP head parser (http_rd_buf keeps the unconsumed bytes and repeats
+   nni_http_req_parse / nni_http_res_parse when more arrive): for both variants
+   of the parser text and for requests and responses *)
+Theorem http_segmentation_independent : forall keep strict isreq st a b,
+  http_feed keep strict isreq st (a ++ b) =
+    let '(s1, e1) := http_feed keep strict isreq st a in
+    let '(s2, e2) := http_feed keep strict isreq s1 b in (s2, e1 ++ e2).
+Proof. exact http_feed_app. Qed.
+Print Assumptions http_segmentation_independent.
+
+Theorem http_any_split_same_events : forall keep strict isreq rest p st,
+  http_feed_all keep strict isreq st (p :: rest) = http_feed keep strict isreq st (concat (p :: rest)).
+Proof. exact http_feed_all_concat. Qed.
+Print Assumptions http_any_split_same_events.
+
+(* the line scanner itself: a decision taken on a prefix is never revised *)
+Theorem http_line_scan_restartable : forall a b,
   http_scan_line (a ++ b) =
     match http_scan_line a with
     | SLine line rest => SLine line (rest ++ b)
@@ -91,7 +97,7 @@ Theorem http_line_segmentation_independent_partial : forall a b,
     | SAgain => http_scan_line (a ++ b)
     end.
 Proof. exact scan_line_split. Qed.
-Print Assumptions http_line_segmentation_independent_partial.
+Print Assumptions http_line_scan_restartable.
 
 Theorem http_scan_continues : forall l lc acc m,
   scan_from lc acc l = SAgain ->
@@ -223,42 +229,69 @@ Qed.
 Print Assumptions emit_well_formed_partial.
 
 (* ---------------------------------------------------------------- (g) *)
+(* a request line without two spaces, or with an unsupported version, yields
+   400 / 505 (and the status stays there while the headers are read); a status
+   line without two spaces or with a bad code yields EPROTO and changes
+   nothing; a header line without ':' yields EPROTO; a bare CR or a control
+   character ends the scan with EPROTO wherever the buffer was cut *)
 Theorem http_malformed_rejected :
-  (forall h line, get_status h < 400 -> ~ In 32 line -> req_parse_line h line = (set_code h 400 None, false)) /\
+  (forall h line, get_status h < 400 -> ~ In 32 line -> req_parse_line h line = set_code h 400 None) /\
   (forall h a b, get_status h < 400 -> ~ In 32 a -> ~ In 32 b ->
-     req_parse_line h (a ++ 32 :: b) = (set_code h 400 None, false)) /\
-  (forall h m u v rest, get_status h < 400 -> split_at 32 (m ++ 32 :: rest) = Some (m, rest) ->
-     split_at 32 rest = Some (u, v) -> canon_simple u = CanonOk u -> version_ok v = false ->
-     req_parse_line h (m ++ 32 :: rest) = (set_code h 505 None, false)) /\
-  (forall h line, ~ In 32 line -> res_parse_line h line = (h, NNG_EPROTO)) /\
-  (forall h v c r line, split_at 32 line = Some (v, c ++ 32 :: r) -> split_at 32 (c ++ 32 :: r) = Some (c, r) ->
-     (atoi32 c <? 100) || (999 <? atoi32 c) = true -> res_parse_line h line = (h, NNG_EPROTO)) /\
+     req_parse_line h (a ++ 32 :: b) = set_code h 400 None) /\
+  (forall h m u v, get_status h < 400 -> ~ In 32 m -> ~ In 32 u -> canon_simple u = CanonOk u ->
+     version_ok v = false -> req_parse_line h (m ++ 32 :: u ++ 32 :: v) = set_code h 505 None) /\
+  (forall isreq h l, h_code (fst (parse_header isreq h l)) = h_code h) /\
+  (forall strict h line, ~ In 32 line -> res_parse_line strict h line = (h, NNG_EPROTO)) /\
+  (forall strict h v c r, ~ In 32 v -> ~ In 32 c -> status_code strict c = None ->
+     res_parse_line strict h (v ++ 32 :: c ++ 32 :: r) = (h, NNG_EPROTO)) /\
   (forall isreq h line, ~ In 58 line -> parse_header isreq h line = (h, NNG_EPROTO)) /\
   (forall pre lc acc c rest, scan_from lc acc pre = SAgain -> fst (scan_state lc acc pre) = 13 -> c <> 10 ->
      scan_from lc acc (pre ++ c :: rest) = SProto) /\
   (forall pre lc acc c rest, scan_from lc acc pre = SAgain -> c < 32 -> c <> 10 -> c <> 13 ->
      scan_from lc acc (pre ++ c :: rest) = SProto).
 Proof.
-  exact (conj req_line_no_space (conj req_line_one_space (conj req_line_bad_version (conj res_line_no_space
-        (conj res_line_bad_code (conj header_no_colon (conj scan_bare_cr scan_control_char))))))).
+  exact (conj req_line_no_space (conj req_line_one_space (conj req_line_bad_version (conj parse_header_code
+        (conj res_line_no_space (conj res_line_bad_code (conj header_no_colon (conj scan_bare_cr scan_control_char)))))))).
 Qed.
 Print Assumptions http_malformed_rejected.
 
-(* two clauses of DESIGN 5/C16 are false of the code as it is (the model is faithful): *)
-(* a request header line without ':' does not fail the request (rv of http_parse_header is overwritten) *)
-Theorem http_req_header_nocolon_refuted :
-  let '(h, rv, used, unk) := req_parse hconn_init req_nocolon_witness in
-  rv = 0 /\ get_status h = 200 /\ h_hdrs h = [] /\ used = length req_nocolon_witness.
-Proof. exact req_header_nocolon_accepted. Qed.
-Print Assumptions http_req_header_nocolon_refuted.
-(* a status code that is not 3DIGIT is accepted (atoi) *)
-Theorem http_status_3digit_refuted :
-  let '(h, rv, used) := res_parse hconn_init res_200x_witness in rv = 0 /\ get_status h = 200.
-Proof. exact res_status_200x_accepted. Qed.
-Print Assumptions http_status_3digit_refuted.
-(* the response parser does report the header without ':' *)
-Theorem http_res_header_nocolon_rejected :
-  let '(h, rv, used) := res_parse hconn_init res_nocolon_witness in rv = NNG_EPROTO.
+(* request header line without ':' -- the text pinned at e917035 ([keep] = false)
+   dropped it silently; since 8f01e0e ([keep] = true) the parse ends with
+   EPROTO at that line wherever it stands, and nothing is delivered as valid *)
+Theorem http_req_header_nocolon_pinned_refuted :
+  let '(h, rv, rest) := req_parse false hconn_init req_nocolon_witness in
+  rv = 0 /\ get_status h = 200 /\ h_hdrs h = [] /\ rest = [].
+Proof. exact req_header_nocolon_pinned. Qed.
+Print Assumptions http_req_header_nocolon_pinned_refuted.
+
+Theorem http_req_header_nocolon_holds :
+  (forall f h buf line rest, http_scan_line buf = SLine line rest -> line <> [] -> h_parsed h = true ->
+     ~ In 58 line ->
+     parse_loop (handle_req true) (fun h => set_parsed h false) (S f) h buf = (set_parsed h false, NNG_EPROTO, rest)) /\
+  (let '(h, rv, rest) := req_parse true hconn_init req_nocolon_witness in rv = NNG_EPROTO /\ rest = [13; 10]).
+Proof. exact (conj req_nocolon_stops req_header_nocolon_fixed). Qed.
+Print Assumptions http_req_header_nocolon_holds.
+
+(* status code -- the pinned text read it with atoi ("200x" = 200); since
+   df9e40d an accepted status line is  version SP 3DIGIT SP reason  with the
+   first digit 1-9, and the status stored is the value of the three digits *)
+Theorem http_status_3digit_pinned_refuted :
+  let '(h, rv, rest) := res_parse false hconn_init res_200x_witness in rv = 0 /\ get_status h = 200.
+Proof. exact res_status_200x_pinned. Qed.
+Print Assumptions http_status_3digit_pinned_refuted.
+
+Theorem http_status_3digit_holds :
+  (forall h line h', res_parse_line true h line = (h', 0) ->
+     exists v a b c reason, line = v ++ 32 :: [a; b; c] ++ 32 :: reason /\ version_ok v = true /\
+       49 <= a <= 57 /\ 48 <= b <= 57 /\ 48 <= c <= 57 /\
+       h_code h' = (a - 48) * 100 + (b - 48) * 10 + (c - 48) /\ 100 <= h_code h' <= 999) /\
+  (let '(h, rv, rest) := res_parse true hconn_init res_200x_witness in rv = NNG_EPROTO).
+Proof. exact (conj res_line_strict_shape res_status_200x_fixed). Qed.
+Print Assumptions http_status_3digit_holds.
+
+(* the response parser reports a header without ':' in both variants *)
+Theorem http_res_header_nocolon_rejected : forall strict,
+  let '(h, rv, rest) := res_parse strict hconn_init res_nocolon_witness in rv = NNG_EPROTO.
 Proof. exact res_header_nocolon_rejected. Qed.
 Print Assumptions http_res_header_nocolon_rejected.
 
@@ -293,14 +326,17 @@ Theorem codec_consts_match :
 Proof. repeat split; vm_compute; reflexivity. Qed.
 Print Assumptions codec_consts_match.
 
-(* HttpLineModel follows the parser text in which the two HTTP defects recorded
-   above are present; when the source is repaired these flags flip, this
-   theorem stops checking, and the model (and the two _refuted theorems) have
-   to follow.  The WebSocket dialer defect is a parameter of the model
-   (eff_recvmax / eff_fragsize) set from C16_DIALER_COPIES_*. *)
-Theorem codec_fix_flags : (C16_REQ_PARSE_KEEPS_ERR, C16_STATUS_STRICT) = (false, false).
+(* The correspondence run instantiates the models with these generated flags
+   (req_parse C16_REQ_PARSE_KEEPS_ERR, res_parse C16_STATUS_STRICT, eff_recvmax /
+   eff_fragsize with the C16_DIALER_COPIES flags): the current source is the repaired text,
+   for which the _holds theorems above are the relevant ones.  Should one of
+   the repairs be undone, the flag flips, the model follows, this theorem stops
+   checking, and the probes of checks/c16.py report the defect with a replay. *)
+Theorem codec_current_source_repaired :
+  (C16_REQ_PARSE_KEEPS_ERR, C16_STATUS_STRICT, C16_DIALER_COPIES_RECVMAX, C16_DIALER_COPIES_FRAGSIZE) =
+  (true, true, true, true).
 Proof. reflexivity. Qed.
-Print Assumptions codec_fix_flags.
+Print Assumptions codec_current_source_repaired.
 
 (* a client built from the current dialer code has no message limit and the ws_init fragment size *)
 Theorem ws_dialer_limits_as_coded : forall recvmax fragsize,
